@@ -162,12 +162,15 @@ func c17Compile(sc c17Scenario) *c17Compiled {
 		} else if l.ipv != 4 {
 			panic("c17 harness: IPv4 remote on IPv6 local in " + sc.name)
 		}
+		if d.relayed {
+			rs += "/p2p/" + c17RelayID + "/p2p-circuit"
+		}
 		g := c17Group(d.rip)
 		if _, ok := groupIdx[g]; !ok {
 			groupIdx[g] = len(groupIdx)
 		}
 		addQuery(l, false)
-		c.conns = append(c.conns, c17Conn{def: d, local: l, remote: c17MustAddr(rs), group: g, groupIdx: groupIdx[g], twIdx: tw(l), atListen: listenTW[l.tw]})
+		c.conns = append(c.conns, c17Conn{def: d, local: l, remote: c17MustAddr(rs), group: g, groupIdx: groupIdx[g], twIdx: tw(l), atListen: listenTW[l.tw] && !d.relayed})
 	}
 	if len(c.conns) > 16 || len(groupIdx) > 16 || len(c.queries)*c17MaxK > 64 {
 		panic("c17 harness: scenario too large for the bit sets")
